@@ -183,6 +183,43 @@ def line_map(orig_text, orig_start_line, new_text):
     return res
 
 
+_frozen = None
+_all_proved = None
+
+
+def all_proved_keys():
+    global _all_proved
+    if _all_proved is None:
+        _all_proved = set()
+        import glob
+        for p in glob.glob(os.path.join(VERIF, "units", "U*.rs")):
+            for l in open(p):
+                if l.strip().startswith("//@prove"):
+                    _all_proved.add(l.split()[1])
+    return _all_proved
+
+
+def check_frozen(spec, orig_text):
+    """An *assumed* contract (used, proved by no unit) was reviewed against one particular text of the
+    function.  If that text changes, the assumption has to be re-reviewed: undecided, never an alarm."""
+    global _frozen
+    if spec.key in all_proved_keys() or spec.key.split("__")[0] in all_proved_keys():
+        return
+    if _frozen is None:
+        fp = os.path.join(VERIF, "contracts", "frozen.json")
+        _frozen = json.load(open(fp)) if os.path.exists(fp) else {}
+    h = hashlib.sha256(orig_text.encode()).hexdigest()
+    if os.environ.get("VERIF_FREEZE") == "1":
+        _frozen[spec.key] = h
+        json.dump(_frozen, open(os.path.join(VERIF, "contracts", "frozen.json"), "w"), indent=1, sort_keys=True)
+        return
+    want = _frozen.get(spec.key)
+    if want is None:
+        raise LostAnchor("assumed contract %s has no reviewed text hash in contracts/frozen.json" % spec.key)
+    if want != h:
+        raise LostAnchor("the text of %s (%s) changed, but its contract %s is only ASSUMED (proved by no unit) and was reviewed against the old text" % (spec.selector, spec.file, spec.key))
+
+
 def clause_block(kw, lines, indent="        "):
     if not lines:
         return []
@@ -222,6 +259,8 @@ def splice_function(u, spec, mode, canary=False, variants=(), rename=None):
     if mode == "use":
         job["rules"] = []
     r = run_vx(job)
+    if mode == "use":
+        check_frozen(spec, r["orig"])
     text = r["text"]
     sig = r["sig"]
     body_open = sig["body_open"]
